@@ -13,6 +13,7 @@ From Coq Require Import ZArith List Bool.
 From TV Require Import Lib.MachInt Gen.PageConsts Gen.Varint
   Model.StoredBytes Model.PageAccess Model.ArrayView
   Proof.StoredBytes Proof.PageAccessLeaf Proof.PageAccessInterior Proof.PageAccessHnsw Proof.ArrayView.
+From TV Require Model.Record Proof.RecordViewBytes.
 From TV Require Proof.Varint Model.Catalog Proof.CatalogFuel Model.Wal Model.WalSpec Proof.Wal.
 Import ListNotations.
 Open Scope Z_scope.
@@ -153,6 +154,17 @@ Theorem array_getters_refuted :
   get_blob [13;0;0;0;21;1;1;0;0;9;0;0;0] 0 = Panic.
 Proof. exact array_getters_refuted_l. Qed.
 
+(* ================================================================ row records (C31 model) *)
+(* RecordView::new accepts any 2 bytes; extract_row_from_record then panics on a record too short for its
+   null bitmap, or whose stored end offset points beyond the bytes (finding F-C23-14) *)
+Theorem record_view_refuted :
+  Record.view_new [2; 0] = Record.Ok tt /\
+  Record.extract [Record.TText] [2; 0] = Record.Panic /\
+  Record.extract [Record.TInt4; Record.TText] [5; 0; 0; 9; 0; 1; 2; 3; 4] = Record.Panic /\
+  Record.extract [Record.TInt4; Record.TText] [5; 0; 0; 0; 0; 1; 2; 3; 4] = Record.Ok [Record.VInt 67305985; Record.VText []] /\
+  Record.extract [Record.TInt4] [4; 0] = Record.Ok [Record.VNull].
+Proof. exact RecordViewBytes.record_view_refuted_l. Qed.
+
 (* ================================================================ decoders modelled by colleagues (restated) *)
 (* varint (C27, regenerated from src/encoding/varint.rs): arbitrary bytes never overflow or index out of
    bounds, and a decoded length lies inside the input *)
@@ -230,6 +242,7 @@ Check array_get_fixed_total : forall d w i, bytes_ok d = true -> wf_fixed d (Z.o
 Check array_get_bool_total : forall d i, bytes_ok d = true -> wf_fixed d 1 = true -> 0 <= i -> value_or_error (get_bool d i).
 Check array_get_blob_text_total : forall d i, bytes_ok d = true -> wf_var d i = true -> 0 <= i -> value_or_error (get_blob d i) /\ value_or_error (get_text d i).
 Check array_getters_refuted : array_new [8;0;0;0;99;1;0;0] = Ok tt /\ elem_type [8;0;0;0;99;1;0;0] = Panic /\ array_new [8;0;0;0;2;1;1;0] = Ok tt /\ is_null [8;0;0;0;2;1;1;0] 0 = Panic /\ get_fixed [8;0;0;0;2;1;1;0] 4 0 = Panic /\ get_bool [8;0;0;0;2;1;1;0] 0 = Panic /\ array_new [0;0;0;0;21;1;1;0;0;0;0;0;0] = Ok tt /\ is_null [0;0;0;0;21;1;1;0;0;0;0;0;0] 0 = Ok false /\ get_blob [0;0;0;0;21;1;1;0;0;0;0;0;0] 0 = Panic /\ get_text [0;0;0;0;21;1;1;0;0;0;0;0;0] 0 = Panic /\ get_blob [13;0;0;0;21;1;1;0;0;9;0;0;0] 0 = Panic.
+Check record_view_refuted : Record.view_new [2; 0] = Record.Ok tt /\ Record.extract [Record.TText] [2; 0] = Record.Panic /\ Record.extract [Record.TInt4; Record.TText] [5; 0; 0; 9; 0; 1; 2; 3; 4] = Record.Panic /\ Record.extract [Record.TInt4; Record.TText] [5; 0; 0; 0; 0; 1; 2; 3; 4] = Record.Ok [Record.VInt 67305985; Record.VText []] /\ Record.extract [Record.TInt4] [4; 0] = Record.Ok [Record.VNull].
 Check varint_decode_total : forall buf, bytes_ok buf = true -> decode_varint_safe buf = true.
 Check varint_decode_inside : forall buf v n, bytes_ok buf = true -> decode_varint buf = Some (v, n) -> 1 <= n <= blen buf /\ 0 <= v < 2 ^ 64.
 Check catalog_deserialize_total : forall bs c, Catalog.deserialize bs c <> Catalog.OutOfFuel.
@@ -270,6 +283,7 @@ Print Assumptions array_get_fixed_total.
 Print Assumptions array_get_bool_total.
 Print Assumptions array_get_blob_text_total.
 Print Assumptions array_getters_refuted.
+Print Assumptions record_view_refuted.
 Print Assumptions varint_decode_total.
 Print Assumptions varint_decode_inside.
 Print Assumptions catalog_deserialize_total.
